@@ -20,7 +20,7 @@ ASSUMPTIONS = ['line-level landing points; delivery of the async exception insid
                'the child is held at the landing for at most 0.6 s; all timeouts passed to terminate are 5 s (remote_timeout too)']
 SHRINK = 'none'
 TIME_BUDGET = {'quick': 170, 'thorough': 1700}
-REQUIRED = {'quick': {'delivered': 150, 'land:target_try_body': 40, 'land:target_finally': 3, 'land:after_target': 20, 'land:handler': 3, 'idle_persistent': 10},
+REQUIRED = {'quick': {'delivered': 150, 'land:target_try_body': 40, 'land:target_finally': 3, 'land:after_target': 20, 'land:handler': 3, 'idle_persistent': 10, 'terminate_after_own_end': 60},
             'thorough': {'delivered': 1500, 'land:target_try_body': 300, 'land:target_finally': 30, 'land:after_target': 200, 'land:handler': 30}}
 
 _src = inspect.getsource(vtargets).splitlines()
@@ -57,7 +57,11 @@ def _line_strategy():
         'kind': st.sampled_from(IC.PERSISTENT), 'scenario': st.just('persist'), 'items': st.lists(st.sampled_from([1, 2]), max_size=2),
         'close': st.just(False), 'pipe': st.just('default'), 'settle': st.sampled_from([0.0, 0.05, 0.3]),
         'inject': st.just({'mode': 'terminate_now'})})
-    return st.one_of(one, one, one, pers, pers, idle)
+    fin = st.fixed_dictionaries({
+        'kind': st.sampled_from(IC.ONE_SHOT + IC.PERSISTENT), 'scenario': st.sampled_from(['quick_return', 'raise_own']),
+        'items': st.lists(st.sampled_from([1, 2, 'POISON']), max_size=2), 'close': st.just(True), 'pipe': st.just('default'),
+        'inject': st.just({'mode': 'terminate_finished'})})
+    return st.one_of(one, one, one, pers, pers, idle, fin)
 
 
 def exhaustive(tier, shard, nshards):
@@ -114,6 +118,10 @@ def run_case(case, ctx):
         else:
             inj['n'] = cen['s0'] + inj['n_raw'] % span
         c['inject'] = inj
+    elif inj['mode'] == 'terminate_finished':
+        if kind.startswith('p_'):
+            c['scenario'] = 'persist'
+        out.label('terminate_after_own_end')
     else:
         out.label('idle_persistent')
     obs = IC.execute(c, ctx)
@@ -121,7 +129,7 @@ def run_case(case, ctx):
         out.excluded = 'constructor did not return a worker: ' + obs['ctor'][:60]
         return out
     reached = obs.get('reached')
-    region = IC.region_of(reached) if inj['mode'] == 'terminate' else 'idle:' + kind
+    region = IC.region_of(reached) if inj['mode'] == 'terminate' else ('finished:' if inj['mode'] == 'terminate_finished' else 'idle:') + kind
     site = region
     out.label('kind:' + kind, 'scenario:' + case['scenario'], 'granularity:' + inj.get('granularity', 'line'))
     in_try_body = in_target = False
@@ -150,7 +158,7 @@ def run_case(case, ctx):
                 out.label('land:before_target')
     if obs.get('delivered'):
         out.label('delivered')
-    out.nontrivial = bool(obs.get('delivered')) or inj['mode'] == 'terminate_now'
+    out.nontrivial = bool(obs.get('delivered')) or inj['mode'] in ('terminate_now', 'terminate_finished')
     out.key = {'kind': kind, 'sc': case['scenario'], 'rounds': case.get('rounds'), 'items': case.get('items'), 'close': case.get('close'),
                'n': inj.get('n'), 'settle': case.get('settle')}
 
@@ -168,7 +176,9 @@ def run_case(case, ctx):
     got = (he, res, err)
     if obs['dead']:
         terminated = (he is True and res is None and err == _WTE)
-        owns = own_outcome(case)
+        owns = own_outcome(c)
+        if inj['mode'] == 'terminate_finished' and terminated:
+            out.viol('finished_worker_reported_as_terminated', site, f'the target had ended on its own before terminate() was called, yet the outcome is {got!r}')
         own = any(he == o[0] and res == o[1] and err == o[2] for o in owns)
         if not terminated and not own:
             out.viol('outcome_neither_terminated_nor_own', site, f'(has_error, result, error) = {got!r}')
